@@ -46,6 +46,10 @@ def extra_tie(tier, rng):
     for p in probs[:20]:
         broken.append('cache discipline: ' + p)
     st.update(st2)
+    probs3, st3 = effects.state_observation(rng, 60 if tier == 'quick' else 600, 12 if tier == 'quick' else 60)
+    for p in probs3[:20]:
+        broken.append('state observation: ' + p)
+    st.update(st3)
     return {'broken': broken, 'seeds': [], 'discipline': st}
 
 def oracle(tier, rng, seeds):
